@@ -235,6 +235,8 @@ func vsRunUntilBlocked(f func()) bool
 func vsSetLockHook(f func(lock string))
 func vsTrack(p interface{}, name string)
 func vsProvablyEqual(a, b []byte) bool
+func vsSpawned() int
+func vsRunSpawned(k int) bool
 func vsProvablyDifferent(a, b []byte) bool
 `
 
